@@ -4,7 +4,10 @@ package props
 import (
 	"bytes"
 	"fmt"
+	"os"
+	"path/filepath"
 	"regexp"
+	"strings"
 	"time"
 
 	"github.com/ozontech/seq-db/seq"
@@ -178,4 +181,15 @@ func errSig(s string) string {
 		s = s[:90]
 	}
 	return s
+}
+
+// waitFracCache waits (bounded polling on a logical event) until the maintenance loop has written .frac-cache.
+func waitFracCache(dir string) bool {
+	for i := 0; i < 2000; i++ {
+		if b, err := os.ReadFile(filepath.Join(dir, ".frac-cache")); err == nil && strings.Contains(string(b), "seq-db-") {
+			return true
+		}
+		time.Sleep(5 * time.Millisecond)
+	}
+	return false
 }
